@@ -3,6 +3,7 @@ import ModbusModel.Lemmas.Encode
 import ModbusModel.Lemmas.Tcp
 import ModbusModel.Props.C01
 import ModbusModel.Lemmas.Serve
+import ModbusModel.Lemmas.IndependentSrv
 /-
   C07 – The server answers every request once, in order, under the request's own header.
 -/
@@ -187,5 +188,23 @@ example :
     = [.call 7 (.readCoils 0 1), .write [0, 1, 0, 0, 0, 3, 7, 0x81, 2],
        .call 9 (.readCoils 5 1), .write [0, 2, 0, 0, 0, 4, 9, 1, 1, 1]] := by
   decide +kernel
+
+/-- **no request leaves anything behind for the next** (beyond unsent bytes and unread input):
+    two states of a connection with the same unsent bytes and read frames the next poll cannot
+    tell apart – whatever decoder state, readiness flag or dropped-byte record the requests
+    served so far have left – treat the rest of the stream identically: same calls, same
+    replies, same end, same transport afterwards.  (The harness's connection-prefix independence
+    monitor checks the same statement on the implementation.) -/
+theorem rest_of_connection_independent_of_past (k : Kind) (svc : Service) (fuel idx : Nat)
+    (f₁ f₂ : ServerFramed) (t : Transport) (tr : List SrvEvent)
+    (ha : f₁.read.Alike f₂.read) (hw : f₁.wbuf = f₂.wbuf) :
+    (processLoop k svc fuel idx f₁ t tr).1 = (processLoop k svc fuel idx f₂ t tr).1
+    ∧ (processLoop k svc fuel idx f₁ t tr).2.1 = (processLoop k svc fuel idx f₂ t tr).2.1
+    ∧ (processLoop k svc fuel idx f₁ t tr).2.2.2 = (processLoop k svc fuel idx f₂ t tr).2.2.2 :=
+  processLoop_independent_of_past k svc fuel idx f₁ f₂ t tr ha hw
+
+-- non-vacuity: a connection that has just served a request (its frame decoder has been used,
+-- its read frame is marked readable) and a fresh one are alike
+example : ({ isReadable := true } : ReadFrame).Alike {} := Or.inr ⟨rfl, rfl, rfl, rfl, rfl, rfl⟩
 
 end Modbus.Props.C07
